@@ -6,6 +6,7 @@ Everything below is for ALL schedules: `Reach v sid s` is "s is reachable by som
 actions", for an arbitrary assignment `sid` of operation ids to submitters (equal ids allowed).
 -/
 import P2.Model.Tasks
+import P2.Extracted.C14
 
 namespace P2.C14
 open P2.Tasks
@@ -68,6 +69,8 @@ private theorem inReady_wake (x : Nat) (p : PC) : inReady (wake x p) = inReady p
 private theorem wake_done (x : Nat) (p : PC) (r : Res) : wake x p = .done r ↔ p = .done r := by
   cases p <;> grind [wake]
 private theorem wake_panicked (x : Nat) (p : PC) : wake x p = .panicked ↔ p = .panicked := by
+  cases p <;> grind [wake]
+private theorem wake_missed (x : Nat) (p : PC) : wake x p = .missed ↔ p = .missed := by
   cases p <;> grind [wake]
 private theorem wake_gap (x y : Nat) (p : PC) : wake x p = .gap y ↔ p = .gap y := by
   cases p <;> grind [wake]
@@ -204,6 +207,19 @@ theorem reach_runSched (v : Variant) (sid : Nat → Nat) (as : List Act) :
       exact ih s1 s' (Reach.step h ⟨a, h1⟩) hr
     · contradiction
 
+/-- The atomic `track` never leaves a submitter between lookup and insert. -/
+private theorem noMissed_step (sid : Nat → Nat) (s s' : St) (a : Act) (h : ∀ t, s.pc t ≠ .missed)
+    (hs : stepFn .fixed sid s a = some s') : ∀ t, s'.pc t ≠ .missed := by
+  cases a <;> simp only [stepFn] at hs <;> (repeat' split at hs) <;>
+    first
+    | contradiction
+    | (simp only [Option.some.injEq] at hs; subst hs; simp only [ne_eq, wake_missed]; grind)
+
+theorem reach_noMissed (sid : Nat → Nat) (s : St) (h : Reach .fixed sid s) : ∀ t, s.pc t ≠ .missed := by
+  induction h with
+  | init => intro t; simp [init]
+  | step _ hs ih => obtain ⟨a, ha⟩ := hs; exact noMissed_step sid _ _ a ih ha
+
 /-! ## The property -/
 
 /-- "No lost wake-up": a submitter that awaits its `Notified` future either still has no result, or the
@@ -319,6 +335,164 @@ theorem c14_orig_witness_dead :
     subst hr
     simp [init]
 
+/-! ## `track` must be atomic (or re-check): the read-locked "fast path"
+
+`stepSplit recheck` splits `track` into `lookup` (read lock) and `insert` (write lock). With the re-check the
+invariant — and with it every safety theorem above — still holds; without it two submitters of one operation that
+both miss insert two tasks, the second overwrites the first, and the first submitter waits forever on a task
+nobody will ever complete. -/
+
+/-- "A wake-up is always still on its way" (the conclusion of `c14_wake_coming`) as a state predicate. -/
+def WakeComing (sid : Nat → Nat) (s : St) : Prop :=
+  ∀ t x, s.pc t = .wait x →
+    s.pipe = .notify x ∨ (∃ e, s.pipe = .setRes x e) ∨
+      (s.result x = none ∧ s.tasks (sid t) = some x ∧ PendingEv s.queue s.pipe (sid t))
+
+theorem wakeComing_of_inv (sid : Nat → Nat) (s : St) (I : InvFixed sid s) : WakeComing sid s := by
+  intro t x hw
+  rcases I.waitOk t x (Or.inl hw) with hr | hn
+  · have h1 := I.refOk t x (by simp [hw, refOf])
+    rcases I.liveOk x h1.1 hr with ht | hs
+    · right; right
+      rw [h1.2] at ht
+      exact ⟨hr, ht, I.pendOk t x (by simp [hw, inReady]) (by simp [hw, refOf]) hr ht⟩
+    · exact Or.inr (Or.inl hs)
+  · exact Or.inl hn
+
+private theorem invS_lookup (sid : Nat → Nat) (s s' : St) (t : Nat) (h : InvFixed sid s)
+    (hs : stepSplit true sid s (.lookup t) = some s') : InvFixed sid s' := by
+  obtain ⟨⟨h1, h2, h3, h4, h5, h6, h7, h8, h9, h10⟩, g1, g2, g3, g4⟩ := h
+  simp only [stepSplit] at hs
+  (repeat' split at hs) <;>
+    first
+    | contradiction
+    | (simp only [Option.some.injEq] at hs; subst hs; inv_close)
+
+private theorem invS_insert (sid : Nat → Nat) (s s' : St) (t : Nat) (h : InvFixed sid s)
+    (hs : stepSplit true sid s (.insert t) = some s') : InvFixed sid s' := by
+  obtain ⟨⟨h1, h2, h3, h4, h5, h6, h7, h8, h9, h10⟩, g1, g2, g3, g4⟩ := h
+  simp only [stepSplit, if_true] at hs
+  (repeat' split at hs) <;>
+    first
+    | contradiction
+    | (simp only [Option.some.injEq] at hs; subst hs; inv_close)
+
+theorem invS_step (sid : Nat → Nat) (s s' : St) (a : ActS) (h : InvFixed sid s)
+    (hs : stepSplit true sid s a = some s') : InvFixed sid s' := by
+  cases a with
+  | lookup t => exact invS_lookup sid s s' t h hs
+  | insert t => exact invS_insert sid s s' t h hs
+  | base b =>
+    cases b with
+    | track t => simp [stepSplit] at hs
+    | send t => exact inv_send sid s s' h t hs
+    | check t => exact inv_check sid s s' h t hs
+    | register t => exact inv_register sid s s' h t hs
+    | await t => exact inv_await sid s s' h t hs
+    | recheck t => exact inv_recheck sid s s' h t hs
+    | recv => exact inv_recv sid s s' h hs
+    | remove => exact inv_remove sid s s' h hs
+    | setResult => exact inv_setResult sid s s' h hs
+    | notifyWaiters => exact inv_notify sid s s' h hs
+
+theorem reachS_inv (sid : Nat → Nat) (s : St) (h : ReachS true sid s) : InvFixed sid s := by
+  induction h with
+  | init => exact inv_init sid
+  | step a _ hs ih => exact invS_step sid _ _ a ih hs
+
+/-- Split `track` WITH re-check under the write lock: all safety theorems carry over. -/
+theorem c14_split_recheck_safe (sid : Nat → Nat) (s : St) (h : ReachS true sid s) :
+    (∀ t x, s.pc t = .wait x → s.result x = none ∨ s.pipe = .notify x) ∧ WakeComing sid s ∧
+    (∀ t, s.pc t ≠ .panicked) ∧ (∀ t r, s.pc t = .done r → r.id = sid t) := by
+  have I := reachS_inv sid s h
+  exact ⟨fun t x hw => I.waitOk t x (Or.inl hw), wakeComing_of_inv sid s I, I.noPanic,
+    fun t r hd => (I.doneOk t r hd).1⟩
+
+theorem reachS_runSplit (rc : Bool) (sid : Nat → Nat) (as : List ActS) :
+    ∀ s s', ReachS rc sid s → runSplit rc sid s as = some s' → ReachS rc sid s' := by
+  induction as with
+  | nil => intro s s' h hr; simp only [runSplit, Option.some.injEq] at hr; exact hr ▸ h
+  | cons a as ih =>
+    intro s s' h hr
+    simp only [runSplit] at hr
+    split at hr
+    · rename_i s1 h1
+      exact ih s1 s' (ReachS.step a h h1) hr
+    · contradiction
+
+/-- Two submitters of operation 5: both look up (miss), both insert — the second insert overwrites the first —
+    both wait; the pipeline completes the task still in the map (submitter 1's) with the first event and finds no
+    task for the second event. -/
+def orphanSchedule : List ActS :=
+  [.lookup 0, .lookup 1, .insert 0, .insert 1, .base (.send 0), .base (.send 1),
+   .base (.register 0), .base (.check 0), .base (.await 0), .base (.register 1), .base (.check 1), .base (.await 1),
+   .base .recv, .base .remove, .base .setResult, .base .notifyWaiters, .base (.recheck 1),
+   .base .recv, .base .remove]
+
+/-- A submitter waiting on a task that has no result, is not in the tracker map any more and is not being
+    completed by the pipeline thread. -/
+def Orphan (s : St) (t x : Nat) : Prop :=
+  s.pc t = .wait x ∧ s.result x = none ∧ (∀ i, s.tasks i ≠ some x) ∧ (∀ e, s.pipe ≠ .setRes x e) ∧
+    s.pipe ≠ .notify x ∧ x < s.next
+
+theorem c14_split_norecheck_orphans :
+    ∃ s, runSplit false (fun _ => 5) init orphanSchedule = some s ∧ Orphan s 0 0 ∧
+      s.pc 1 = .done ⟨5, 0⟩ ∧ s.queue = [] ∧ s.pipe = .idle := by
+  refine ⟨_, rfl, ⟨rfl, rfl, ?_, ?_, ?_, ?_⟩, rfl, rfl, rfl⟩
+  · intro i; by_cases h : i = 5 <;> simp [init, upd, h]
+  · intro e; simp
+  · simp
+  · simp [init]
+
+/-- Split `track` WITHOUT re-check violates "a wake-up is always on its way" … -/
+theorem c14_split_norecheck_violates : ¬ (∀ sid s, ReachS false sid s → WakeComing sid s) := by
+  intro hall
+  obtain ⟨s, hr, ho, _, hq, hp⟩ := c14_split_norecheck_orphans
+  have hreach := reachS_runSplit false (fun _ => 5) orphanSchedule init s ReachS.init hr
+  obtain ⟨h1, h2, h3, h4, h5, _⟩ := ho
+  rcases hall _ s hreach 0 0 h1 with h | ⟨e, h⟩ | ⟨_, h, _⟩
+  · exact h5 h
+  · exact h4 e h
+  · exact h3 _ h
+
+/-- … and the orphaned submitter stays orphaned under EVERY continuation of the schedule. -/
+theorem c14_split_norecheck_orphan_forever (sid : Nat → Nat) (s s' : St) (a : ActS) (t x : Nat)
+    (ho : Orphan s t x) (hs : stepSplit false sid s a = some s') : Orphan s' t x := by
+  obtain ⟨o1, o2, o3, o4, o5, o6⟩ := ho
+  cases a with
+  | lookup u =>
+    simp only [stepSplit] at hs
+    (repeat' split at hs) <;>
+      first
+      | contradiction
+      | (simp only [Option.some.injEq] at hs; subst hs
+         refine ⟨?_, ?_, ?_, ?_, ?_, ?_⟩ <;> grind)
+  | insert u =>
+    simp only [stepSplit] at hs
+    (repeat' split at hs) <;>
+      first
+      | contradiction
+      | (simp only [Option.some.injEq] at hs; subst hs
+         refine ⟨?_, ?_, ?_, ?_, ?_, ?_⟩ <;> grind)
+  | base b =>
+    cases b <;> simp only [stepSplit, stepFn] at hs <;> (repeat' split at hs) <;>
+      first
+      | contradiction
+      | (simp only [Option.some.injEq] at hs; subst hs
+         refine ⟨?_, ?_, ?_, ?_, ?_, ?_⟩ <;> simp only [ne_eq, wake_wait] <;> grind)
+
+/-! ### … and the source really is the atomic form
+
+`trackCriticalSection` is re-extracted from p2panda/src/processor/tasks.rs on every run: the body of
+`TaskTracker::track` must be ONE write-locked get-or-insert (the extraction itself fails when the function has any
+other shape, e.g. a read-locked fast path in front), and `trackFirstLock` is the first lock the function takes. -/
+
+theorem c14_track_is_atomic_in_source :
+    P2.Extracted.C14.trackFirstLock = "write" ∧
+    P2.Extracted.C14.trackCriticalSection =
+      "let mut inner = self.0.write().await; match inner.get(&id) { Some(task) => task.clone(), None => { let task = Task::<T, ID>::new(id); inner.insert(id, task.clone()); task } }" :=
+  ⟨rfl, rfl⟩
+
 /-! ## Termination: "eventually returns" without a fairness assumption
 
 Every action strictly decreases a natural-number measure, so every run of `N` submitters is finite (at most
@@ -328,6 +502,7 @@ where all `N` submitters have returned, and it must stop. -/
 
 def rank : PC → Nat
   | .idle => 12
+  | .missed => 12
   | .tracked _ => 11
   | .sent _ => 6
   | .reg _ _ => 5
@@ -511,6 +686,7 @@ theorem c14_progress (sid : Nat → Nat) (s : St) (h : Reach .fixed sid s) (t : 
     | work e => exact ⟨.track t, by simp, by cases ht : s.tasks (sid t) <;> simp [stepFn, hpc, hpipe, lockHeld, ht]⟩
     | setRes x e => exact ⟨.setResult, by simp, by simp [stepFn, hpipe]⟩
     | notify x => exact ⟨.notifyWaiters, by simp, by simp [stepFn, hpipe]⟩
+  | missed => exact absurd hpc (reach_noMissed sid s h t)
   | tracked x => exact ⟨.send t, by simp, by simp [stepFn, hpc]⟩
   | sent x => exact ⟨.register t, by simp, by simp [stepFn, hpc]⟩
   | gap x => exact absurd hpc (I.noGap t x)
